@@ -18,9 +18,6 @@ Ltac nb :=
 
 Definition within (g : cfg) (s : st) : Prop := g_limit g = 0 \/ held s <= g_limit g.
 
-Lemma held_app_chans : forall c r n x k, held (mkSt c (r ++ [x]) n k 0) = held (mkSt c r n k 0) + 1.
-Proof. intros; unfold held; cbn [chans resv]. rewrite app_length; cbn. lia. Qed.
-
 Lemma take_length : forall tok l n rest, take tok l = Some (n, rest) -> length l = S (length rest).
 Proof.
   induction l as [|[t m] l IH]; intros n rest H; cbn [take] in H; [discriminate|].
@@ -33,40 +30,66 @@ Qed.
 Lemma filter_length_le : forall (A : Type) (p : A -> bool) l, (length (filter p l) <= length l)%nat.
 Proof. induction l as [|x l IH]; cbn; [lia|]. destruct (p x); cbn; lia. Qed.
 
-Lemma step_within : forall sub_any g s l s' o,
-  (forall g s n len sp sc, sub_any g s n len sp sc = sub_gen true g s n len sp sc \/
-                           sub_any g s n len sp sc = sub_gen false g s n len sp sc) ->
-  step_gen sub_any g s l = Some (s', o) -> within g s -> within g s'.
+Lemma map_install_within : forall g s n rest s' o,
+  g_limit g <> 0 -> held s <= g_limit g ->
+  map_install true g s n rest = (s', o) -> held s' <= g_limit g.
 Proof.
-  intros sub_any g s l s' o Hsub H W. unfold within in *.
+  intros g s n rest s' o Z W H. unfold map_install, at_limit in H. cbn [andb] in H.
+  assert (Zb : (0 <? g_limit g) = true) by (apply N.ltb_lt; lia). rewrite Zb in H. cbn [andb] in H.
+  destruct (g_limit g <=? held s) eqn:L.
+  - inversion H; subst. unfold held in *. cbn [chans resv] in *. exact W.
+  - nb. destruct (memN n (chans s)); inversion H; subst; unfold held in *; cbn [chans resv] in *;
+      rewrite ?app_length; cbn [length]; lia.
+Qed.
+
+Lemma step_within : forall lc g s l s' o,
+  step_gen (sub_gen lc true) (complete_gen true) g s l = Some (s', o) -> within g s -> within g s'.
+Proof.
+  intros lc g s l s' o H W. unfold within in *.
   destruct (N.eq_dec (g_limit g) 0) as [Z|Z]; [left; assumption|right].
   destruct W as [W|W]; [contradiction|].
   assert (Zb : (0 <? g_limit g) = true) by (apply N.ltb_lt; lia).
   destruct l; cbn [step_gen] in H.
   - (* subscribe command *)
-    inversion H as [H']. clear H.
-    assert (G : forall b, sub_gen b g s n len sp sc = (s', o) -> held s' <= g_limit g).
-    { intros b Hb. unfold sub_gen in Hb.
-      destruct (closed s); [inversion Hb; subst; assumption|].
-      destruct ((0 <? g_maxlen g) && (g_maxlen g <? len) && (negb sp || b)); [inversion Hb; subst; assumption|].
-      destruct (taken s n); [inversion Hb; subst; assumption|].
-      rewrite Zb in Hb. cbn [andb] in Hb.
-      destruct (g_limit g <=? held s) eqn:L; [inversion Hb; subst; assumption|]. nb.
-      destruct sc; inversion Hb; subst; unfold held in *; cbn [chans resv] in *;
-        rewrite ?app_length; cbn [length]; lia. }
-    destruct (Hsub g s n len sp sc) as [E|E]; rewrite E in H'; eapply G; eassumption.
+    inversion H as [H']. clear H. unfold sub_gen in H'.
+    destruct (closed s); [inversion H'; subst; assumption|].
+    cbv zeta in H'.
+    destruct ((0 <? g_maxlen g) && (g_maxlen g <? len) &&
+              (negb match rt with RSharedPoll => true | _ => false end || lc)); [inversion H'; subst; assumption|].
+    unfold at_limit in H'. rewrite Zb in H'. cbn [andb] in H'.
+    destruct rt.
+    + destruct (taken s n); [inversion H'; subst; assumption|].
+      destruct (g_limit g <=? held s) eqn:L; [inversion H'; subst; assumption|]. nb.
+      destruct sc; inversion H'; subst; unfold held in *; cbn [chans resv] in *;
+        rewrite ?app_length; cbn [length]; lia.
+    + destruct (taken s n); [inversion H'; subst; assumption|].
+      destruct (g_limit g <=? held s) eqn:L; [inversion H'; subst; assumption|]. nb.
+      destruct sc; inversion H'; subst; unfold held in *; cbn [chans resv] in *;
+        rewrite ?app_length; cbn [length]; lia.
+    + destruct (memN n (chans s)); [inversion H'; subst; assumption|].
+      destruct (g_limit g <=? held s) eqn:L; [inversion H'; subst; assumption|].
+      destruct sc.
+      * destruct (map_install true g s n (mpend s)) as [s1 o1] eqn:M. inversion H'; subst.
+        eapply map_install_within; eassumption.
+      * inversion H'; subst; assumption.
+      * inversion H'; subst. unfold held in *. cbn [chans resv] in *. exact W.
   - (* completion *)
-    inversion H as [H']. unfold complete in H'.
-    destruct (take tok (resv s)) as [[n rest]|] eqn:T; [|inversion H'; subst; assumption].
-    pose proof (take_length _ _ _ _ T) as TL.
-    destruct (closed s); [|destruct ok]; inversion H'; subst; unfold held in *; cbn [chans resv] in *;
-      rewrite ?app_length; cbn [length]; lia.
+    inversion H as [H']. unfold complete_gen in H'.
+    destruct (take tok (resv s)) as [[n rest]|] eqn:T.
+    + pose proof (take_length _ _ _ _ T) as TL.
+      destruct (closed s); [|destruct ok]; inversion H'; subst; unfold held in *; cbn [chans resv] in *;
+        rewrite ?app_length; cbn [length]; lia.
+    + destruct (take tok (mpend s)) as [[n rest]|] eqn:T2; [|inversion H'; subst; assumption].
+      destruct (closed s); [inversion H'; subst; unfold held in *; cbn [chans resv] in *; exact W|].
+      destruct ok.
+      * eapply map_install_within; eassumption.
+      * inversion H'; subst. unfold held in *. cbn [chans resv] in *. exact W.
   - (* server-side subscribe *)
-    inversion H as [H']. unfold srv_sub in H'.
+    inversion H as [H']. unfold srv_sub, at_limit in H'.
     destruct (closed s) eqn:C; [inversion H'; subst; assumption|].
     rewrite Zb in H'. cbn [andb] in H'.
     destruct (g_limit g <=? held s) eqn:L.
-    + unfold close in H'. rewrite C in H'. inversion H'; subst. unfold held in *. cbn [chans resv] in *. assumption.
+    + unfold close in H'. rewrite C in H'. inversion H'; subst. unfold held in *. cbn [chans resv] in *. exact W.
     + nb. destruct (taken s n); inversion H'; subst; [assumption|].
       unfold held in *; cbn [chans resv] in *; rewrite app_length; cbn [length]; lia.
   - (* unsubscribe *)
@@ -76,9 +99,10 @@ Proof.
     pose proof (filter_length_le N (fun x => negb (x =? n)) (chans s)). lia.
   - (* enqueue *)
     inversion H as [H']. unfold enqueue in H'. destruct (closed s) eqn:C; [inversion H'; subst; assumption|].
+    cbv zeta in H'. cbn [q] in H'.
     destruct ((0 <? g_maxq g) && (g_maxq g <? q s + size)).
-    + unfold close in H'. cbn in H'. inversion H'; subst. unfold held in *. cbn in *. assumption.
-    + inversion H'; subst. unfold held in *. cbn in *. assumption.
+    + unfold close in H'. cbn [closed] in H'. inversion H'; subst. unfold held in *. cbn [chans resv] in *. exact W.
+    + inversion H'; subst. unfold held in *. cbn [chans resv] in *. exact W.
 Qed.
 
 (* the channel limit is never exceeded, on any run *)
@@ -86,57 +110,71 @@ Theorem limit_invariant : forall g ls t,
   trace g init ls = Some t -> forall o s, In (o, s) t -> g_limit g = 0 \/ held s <= g_limit g.
 Proof.
   intros g ls t H.
-  assert (G : forall ls s0 t, trace_gen sub_cmd g s0 ls = Some t -> within g s0 ->
+  assert (G : forall ls s0 t, trace_gen sub_cmd complete g s0 ls = Some t -> within g s0 ->
                               forall o s, In (o, s) t -> within g s).
   { induction ls0 as [|l r IH]; intros s0 t0 Ht W o s Hin; cbn [trace_gen] in Ht.
     - inversion Ht; subst. contradiction.
-    - destruct (step_gen sub_cmd g s0 l) as [[s1 o1]|] eqn:E; [|discriminate].
-      destruct (trace_gen sub_cmd g s1 r) as [t1|] eqn:E2; [|discriminate].
+    - destruct (step_gen sub_cmd complete g s0 l) as [[s1 o1]|] eqn:E; [|discriminate].
+      destruct (trace_gen sub_cmd complete g s1 r) as [t1|] eqn:E2; [|discriminate].
       inversion Ht; subst.
-      assert (W1 : within g s1).
-      { eapply (step_within sub_cmd); [|exact E|exact W]. intros; left; reflexivity. }
+      assert (W1 : within g s1) by (eapply (step_within true); [exact E|exact W]).
       destruct Hin as [Hin|Hin]; [inversion Hin; subst; assumption|].
       eapply IH; eassumption. }
   intros o s Hin. eapply G; [exact H| |exact Hin]. right. unfold held, init. cbn. lia.
 Qed.
 
+(* the code before the fixes: three overlapping map subscribes with held callbacks all pass the
+   limit check (nothing is reserved) and are all installed *)
+Theorem limit_prefix_refuted :
+  exists g ls t o s, trace_prefix g init ls = Some t /\ In (o, s) t /\ 0 < g_limit g /\ g_limit g < held s.
+Proof.
+  exists (mkCfg 2 0 0),
+         [LSub 1 3 RMap SAsync; LSub 2 3 RMap SAsync; LSub 3 3 RMap SAsync;
+          LComplete 0 true; LComplete 1 true; LComplete 2 true].
+  eexists. eexists. eexists. split; [vm_compute; reflexivity|]. split.
+  - do 5 right. left. reflexivity.
+  - vm_compute. split; reflexivity.
+Qed.
+
 (* at the limit: a further client subscribe is refused with 106 (or 105 if it is a duplicate)
    and changes nothing; a server-side one disconnects with 3505 *)
-Theorem at_limit_client : forall g s n len sp sc,
+Theorem at_limit_client : forall g s n len rt sc,
   closed s = false -> 0 < g_limit g -> g_limit g <= held s ->
   (g_maxlen g = 0 \/ len <= g_maxlen g) -> taken s n = false ->
-  sub_cmd g s n len sp sc = (s, [OReply 106]).
+  sub_cmd g s n len rt sc = (s, [OReply 106]).
 Proof.
-  intros g s n len sp sc C L1 L2 Hl T. unfold sub_cmd, sub_gen. rewrite C, T.
+  intros g s n len rt sc C L1 L2 Hl T. unfold sub_cmd, sub_gen, at_limit. rewrite C. cbv zeta.
   assert (X : (0 <? g_maxlen g) && (g_maxlen g <? len) = false).
   { destruct Hl as [Hl|Hl]; [rewrite Hl; reflexivity|].
     apply andb_false_iff. right. apply N.ltb_ge. assumption. }
   rewrite X. cbn [andb].
-  apply N.ltb_lt in L1. apply N.leb_le in L2. rewrite L1, L2. reflexivity.
+  apply N.ltb_lt in L1. apply N.leb_le in L2. rewrite L1, L2. cbn [andb].
+  assert (M : memN n (chans s) = false) by (unfold taken in T; apply orb_false_iff in T; tauto).
+  destruct rt; rewrite ?T, ?M; reflexivity.
 Qed.
 
 Theorem at_limit_server : forall g s n,
   closed s = false -> 0 < g_limit g -> g_limit g <= held s ->
   exists s', srv_sub g s n = (s', [OClose 3505]) /\ closed s' = true.
 Proof.
-  intros g s n C L1 L2. unfold srv_sub. rewrite C.
+  intros g s n C L1 L2. unfold srv_sub, at_limit. rewrite C.
   apply N.ltb_lt in L1. apply N.leb_le in L2. rewrite L1, L2. cbn [andb].
   unfold close. rewrite C. eexists; split; reflexivity.
 Qed.
 
 (* over-long channel name: refused with 107 on every route, nothing reserved, no handler *)
-Theorem too_long_rejected : forall g s n len sp sc,
+Theorem too_long_rejected : forall g s n len rt sc,
   closed s = false -> 0 < g_maxlen g -> g_maxlen g < len ->
-  sub_cmd g s n len sp sc = (s, [OReply 107]).
+  sub_cmd g s n len rt sc = (s, [OReply 107]).
 Proof.
-  intros g s n len sp sc C L1 L2. unfold sub_cmd, sub_gen. rewrite C.
+  intros g s n len rt sc C L1 L2. unfold sub_cmd, sub_gen. rewrite C. cbv zeta.
   apply N.ltb_lt in L1, L2. rewrite L1, L2. cbn [andb]. rewrite orb_true_r. reflexivity.
 Qed.
 
 (* the code before the fix: the shared-poll route accepts it *)
 Theorem too_long_prefix_refuted :
   exists g s n len sc, closed s = false /\ 0 < g_maxlen g /\ g_maxlen g < len /\
-    sub_cmd_prefix g s n len true sc <> (s, [OReply 107]).
+    sub_cmd_prefix g s n len RSharedPoll sc <> (s, [OReply 107]).
 Proof.
   exists (mkCfg 4 6 0), init, 1, 7, SOk. repeat split; try reflexivity. vm_compute. discriminate.
 Qed.
